@@ -291,12 +291,13 @@ def run(rep):
                tag='c20-numsim4', workers=3, deadlock=False, simulate=dict(num=9), depth=11, seed=seed + 1)
         submit('fn2', h_fn(True, budget=40000, numeric=600), 'MCDimFn', cfg_text=_cfg('MCDimFn.cfg', Inits='MCInitsThorough'), tag='c20-fn2', workers=4, deadlock=False)
         submit('fn3', h_modelonly, 'MCDimFn', cfg_text=_no_emit(_cfg('MCDimFn.cfg', Inits='MCInitsDeep', MaxSteps=3)), tag='c20-fn3', workers=6, deadlock=False, timeout=1500)
-        submit('unit2', h_unit(True), 'MCUnitMachine', cfg_text=_cfg('MCUnitMachine.cfg', Numbers='MCNumbersThorough', Words1='MCWords1', Words2='MCWords2',
-                                                                     Powers1='MCPowers1', Powers2='MCPowers2', Precs='MCPrecs', Precs2='MCPrecs2Thorough'),
+        results_only = lambda text: text.replace('CONSTRAINT Emit', 'CONSTRAINT EmitResults')
+        submit('unit2', h_unit(True), 'MCUnitMachine', cfg_text=results_only(_cfg('MCUnitMachine.cfg', Numbers='MCNumbersThorough', Words1='MCWords1',
+                                                                                  Powers1='MCPowers1', Precs='MCPrecs', Precs2='MCPrecs2Thorough')),
                tag='c20-unit2', workers=8, deadlock=False, timeout=1500)
-        submit('unitsim', h_unit(False), 'MCUnitMachine', cfg_text=_cfg('MCUnitMachine.cfg', Numbers='MCNumbersThorough', Words1='MCWords1', Words2='MCWords2',
-                                                                       Powers1='MCPowers1', Powers2='MCPowers2', Precs='MCPrecs', MaxFactors=4),
-               tag='c20-unitsim', workers=2, deadlock=False, simulate=dict(num=60), depth=46, seed=seed)
+        submit('unit3', h_unit(True), 'MCUnitMachine', cfg_text=results_only(_cfg('MCUnitMachine.cfg', Words1='MCWords3', Words2='MCWords3', Powers1='MCPowers3',
+                                                                                  Powers2='MCPowers3', MaxFactors=3)),
+               tag='c20-unit3', workers=6, deadlock=False, timeout=1500)
 
     # ------------------------------------------------------------------ consume the results as they arrive
     try:
@@ -316,7 +317,7 @@ def run(rep):
     rep.extra['unitpy_cases'] = ur.nupy
     rep.constants['DimMachine'] = dict(bases='L,M,T (+theta thorough)', seeds='7 (12 thorough)', MaxSteps='2 exhaustive; 6 in simulation', MaxVal=10000)
     rep.constants['DimFn'] = dict(inits='4 (9 thorough)', MaxSteps='2 (3 model-only thorough)', space_dims='2,3')
-    rep.constants['UnitMachine'] = dict(MaxFactors='2 (4 in simulation, thorough)', words='26 / 54', precisions='default,0,2 (0,1,3 thorough)')
+    rep.constants['UnitMachine'] = dict(MaxFactors='2 (3 with a small alphabet, thorough)', words='26 / 54', precisions='default,0,2 (0,1,3 thorough)')
     rep.constants['MCDimLaws'] = dict(universe='exponents {-2,-1/2,0,1}^3 quick, {-2,-1,-1/2,0,1/2,1,2}^3 thorough')
     rep.rule = ('cases = distinct (function, operand classes and shapes, parameter, predicted outcome) of replayed quantity transitions '
                 '+ distinct function-array programs + distinct unit strings / format specs / unit definitions + live table rows')
